@@ -72,6 +72,27 @@ fn main() {
     }
     w("msk.bin", &msk.serialize().unwrap());
     w("structure.bin", &msk.access_structure.serialize().unwrap());
+    // a second, small master key whose attribute ids have a gap (an attribute was deleted):
+    // ids in use are not 0..n-1, so a reader of this legacy layout that rebuilds the id counter
+    // from the *number* of attributes, or from the highest id without adding one, collides
+    {
+        let (mut gm, _) = cc.setup().unwrap();
+        let s = &mut gm.access_structure;
+        s.add_anarchy("G".into()).unwrap();
+        s.add_attribute(QualifiedAttribute::new("G", "g0"), EncryptionHint::Classic, None).unwrap();
+        s.add_attribute(QualifiedAttribute::new("G", "g1"), EncryptionHint::Classic, None).unwrap();
+        s.add_attribute(QualifiedAttribute::new("G", "g2"), EncryptionHint::Classic, None).unwrap();
+        s.del_attribute(&QualifiedAttribute::new("G", "g0")).unwrap();
+        let gmpk = cc.update_msk(&mut gm).unwrap();
+        let gk1 = cc.generate_user_secret_key(&mut gm, &ap("G::g1")).unwrap();
+        let gk2 = cc.generate_user_secret_key(&mut gm, &ap("G::g2")).unwrap();
+        let (gs, ge) = cc.encaps(&gmpk, &ap("G::g2")).unwrap();
+        w("gap_msk.bin", &gm.serialize().unwrap());
+        w("gap_usk1.bin", &gk1.serialize().unwrap());
+        w("gap_usk2.bin", &gk2.serialize().unwrap());
+        w("gap_enc2.bin", &ge.serialize().unwrap());
+        w("gap_secret2.bin", &gs[..]);
+    }
     let manifest = serde_json::json!({
         "written_by": "cosmian_cover_crypt 15.0.0 at the pinned commit 8f3c295 (tools/goldengen)",
         "user_policies": ["SEC::TOP && DPT::FIN (refreshed with keep after rekey DPT::FIN)", "SEC::LOW && DPT::HR", "DPT::MKG", "SEC::MID", "SEC::TOP (generated last)"],
